@@ -17,9 +17,11 @@ package latch
 
 //@ func (*Manager).Acquire
 //@   property C20
+//@   tag ghost-pure
+//@   modifies nothing
 //@   timeout 150
 //@   requires m == nil || len(m.stripes) > 0
-//@   ensures [guard] result != nil
+//@   ensures [guard] result != nil && (result.manager == nil || result.manager == m) && (m == nil ==> result.manager == nil)
 //@   ensures [in-range] forall j int :: 0 <= j && j < len(result.slots) ==> 0 <= result.slots[j] && result.slots[j] < len(m.stripes)
 //@   ensures [strictly-increasing] forall i int, j int :: 0 <= i && i < j && j < len(result.slots) ==> result.slots[i] < result.slots[j]
 //   (not yet) ensures [covers-every-key] m != nil ==> (forall k int :: 0 <= k && k < len(keys) && len(keys[k]) != 0 ==> (exists j int :: 0 <= j && j < len(result.slots) && result.slots[j] == stripeOf(m, keys[k])))
@@ -30,6 +32,8 @@ package latch
 
 //@ func (*Guard).Release
 //@   property C20
+//@   tag ghost-pure
+//@   modifies g.manager, g.slots
 //@   requires g == nil || g.manager == nil || (forall j int :: 0 <= j && j < len(g.slots) ==> 0 <= g.slots[j] && g.slots[j] < len(g.manager.stripes))
 //@   ensures [idempotent-state] g != nil && old(g.manager) != nil && old(len(g.slots)) != 0 ==> g.manager == nil && len(g.slots) == 0
 //@   ensures [all-unlocked] g != nil && old(g.manager) != nil ==> (forall j int :: 0 <= j && j < old(len(g.slots)) ==> !held(old(g.manager).stripes[old(g.slots[j])]))
